@@ -6,7 +6,7 @@
      POST  = (LINE VIRT STATE ACCT AMT COST? NOTE?)     AMT = (TEXT FLAGS SYM? QTY)
      X?    = () | (HEX)        strings are hex, "-" is the empty string
    (enc ID HEX)   -> "ID enc EMACS CSVQ CSVRFC JOIN XML"          the escaping functions alone
-   (read rfc|bs|xml|lisp ID HEX) -> "ID read ..." what the reader specification recovers, or "ID read none" *)
+   (read rfc|bs|xml|lisp|xmltags ID HEX) -> "ID read ..." what the reader specification recovers, or "ID read none" *)
 let hx a = if a = "-" then [] else str_of_hex a
 let out l = match hex_of_str l with "" -> "-" | h -> h
 let opt = function L [] -> None | L [A h] -> Some (hx h) | _ -> failwith "opt"
@@ -71,6 +71,13 @@ let handle line =
         | "rfc" -> show_rows (csv_read_rfc s)
         | "bs" -> show_rows (csv_read_bs s)
         | "xml" -> (match xml_decode s with None -> "none" | Some v -> "text " ^ out v)
+        | "xmltags" ->
+          (match xml_tags XsText s with
+           | None -> "none"
+           | Some evs ->
+             (if well_nested [] evs then "nested " else "misnested ") ^
+             String.concat " " (List.map (function XOpen k -> "o:" ^ out k | XClose k -> "c:" ^ out k
+                                                 | XEmpty k -> "e:" ^ out k) evs))
         | "lisp" -> (match lisp_read s with None -> "none"
                                          | Some l -> "sexp " ^ String.concat " " (List.map show_sexp l))
         | _ -> failwith "read") in
